@@ -132,7 +132,7 @@ Definition unhex (c : N) : option N :=
   else if (65 <=? c) && (c <=? 70) then Some (c - 55)
   else None.
 
-(* types/string.go DecodeName (used by model/parse.go parseName AND by validate/info.go handleProperties) *)
+(* types/string.go DecodeName (used by model/parse.go parseName) *)
 Fixpoint decode_name (s : str) : option str :=
   match s with
   | [] => Some []
@@ -185,21 +185,18 @@ Definition std_key (k : str) : bool := smem k std_keys.
 
 Definition info := list (str * str).
 
-(* validate/info.go handleProperties over every Info entry: Properties[DecodeName(key)] = v;
-   a name that does not decode makes the whole document invalid (None) *)
-Fixpoint props_read (i : info) : option info :=
+(* validate/info.go handleProperties over every Info entry: Properties[key] = v for a
+   non-empty text value (the key was decoded once, by the parser) *)
+Fixpoint props_read (i : info) : info :=
   match i with
-  | [] => Some []
+  | [] => []
   | (k, v) :: r =>
-    match props_read r with
-    | None => None
-    | Some m =>
-      if std_key k then Some m
-      else match v with
-           | [] => Some m
-           | _ => match decode_name k with Some k' => Some (m_set k' v m) | None => None end
-           end
-    end
+    let m := props_read r in
+    if std_key k then m
+    else match v with
+         | [] => m
+         | _ => m_set k v m
+         end
   end.
 
 (* write (EncodeName) then parse (parseName: DecodeName); a name the parser rejects
@@ -309,8 +306,7 @@ Definition set_att d x := Doc (d_ver d) (d_kw d) (d_info d) (d_pl d) (d_pm d) (d
 
 (* ReadAndValidate succeeds *)
 Definition readable (d : doc) : bool :=
-  (match props_read (d_info d) with Some _ => true | None => false end)
-  && (match d_vp d with Some vp => vp_readable vp | None => true end).
+  match d_vp d with Some vp => vp_readable vp | None => true end.
 
 (* api.Write followed by the next read; write.go writes the header %PDF-1.7 for every
    document that is not PDF 2.0 and drops a Root /Version *)
@@ -357,11 +353,10 @@ Definition step (d : doc) (o : op) : doc * bool :=
   | PAdd kvs =>         (* api.AddProperties, pdfcpu.PropertiesAdd *)
     if negb (padd_valid kvs) then fail d else
     done (set_info d (fold_left (fun m kv => m_set (fst kv) (snd kv) m) kvs (d_info d)))
-  | PRemove [] =>       (* pdfcpu.removeAllProperties: delete(d, EncodeName(k)) for k in ctx.Properties *)
+  | PRemove [] =>       (* pdfcpu.removeAllProperties: delete(d, k) for k in ctx.Properties *)
     match props_read (d_info d) with
-    | None => fail d
-    | Some [] => fail d
-    | Some ps => done (set_info d (fold_left (fun m kv => m_del (encode_name (fst kv)) m) ps (d_info d)))
+    | [] => fail d
+    | ps => done (set_info d (fold_left (fun m kv => m_del (fst kv) m) ps (d_info d)))
     end
   | PRemove ks =>       (* pdfcpu.PropertiesRemove *)
     if negb (prem_valid ks) then fail d else
@@ -413,14 +408,10 @@ Record store := Store {
 
 Definition observe (d : doc) : option store :=
   if negb (readable d) then None else
-  match props_read (d_info d) with
-  | None => None
-  | Some ps =>
-    Some (Store (d_ver d) (kw_read d) ps
+    Some (Store (d_ver d) (kw_read d) (props_read (d_info d))
                 (match d_pl d with None => None | Some n => enum_for pl_names n end)
                 (match d_pm d with None => None | Some n => enum_for pm_names n end)
-                (d_vp d) (d_att d))
-  end.
+                (d_vp d) (d_att d)).
 
 Definition extract (d : doc) (id : str) : option (list N) :=
   if readable d then m_get id (d_att d) else None.
@@ -460,23 +451,24 @@ Definition arun (s : store) (h : list op) : store := fold_left astep h s.
 Definition wfk (k : str) : bool :=
   negb (existsb is_sep k) && seqb (trim k) k && (match k with [] => false | _ => true end).
 
-Definition no_hash_nul (k : str) : bool := forallb (fun c => negb (c =? 35) && negb (c =? 0) && (c <? 256)) k.
-Definition regular_name (k : str) : bool := forallb (fun c => negb (needs_hex c)) k.
+(* open finding: NUL cannot be written in a name (the property is silently dropped) *)
+Definition name_bytes (k : str) : bool := forallb (fun c => negb (c =? 0) && (c <? 256)) k.
 
-(* defect (ii): no '#' in a property name; NUL cannot be written in a name;
-   strict (histories with "remove all properties", defect (iii)): names need no #xx escape *)
-Definition wfname (strict : bool) (k : str) : bool :=
-  no_hash_nul k && negb (std_key k) && (if strict then regular_name k else true).
+(* a property name: bytes without NUL, and not one of the Info entries that pdfcpu keeps
+   outside the properties (Title, Author, Subject, Creator, AAPL:Keywords) *)
+Definition wfname (k : str) : bool := name_bytes k && negb (std_key k).
 
-Definition wf_vp (vp : vprefs) : bool :=
-  vp_readable vp.   (* defect (iv): NonFullScreenPageMode 3 (NFSPageModeUseOC) is written as FullScreen *)
+(* every field holds a value of its enumeration: NonFullScreenPageMode one of
+   NFSPageModeUseNone/UseOutlines/UseThumb/UseOC (= PageMode 0,1,2,4), Direction < 2, ... ,
+   NumCopies >= 1 (api.SetViewerPreferences does not check ranges; a value outside them is
+   written as "?" or as a name the reader rejects) *)
+Definition wf_vp (vp : vprefs) : bool := vp_readable vp.
 
-Definition wf_op (strict : bool) (o : op) : bool :=
+Definition wf_op (o : op) : bool :=
   match o with
   | KAdd ks | KRemove ks => forallb wfk ks
-  | PAdd kvs => forallb (fun kv => wfname strict (fst kv)) kvs
-  | PRemove [] => strict
-  | PRemove ks => forallb (wfname strict) ks
+  | PAdd kvs => forallb (fun kv => wfname (fst kv)) kvs
+  | PRemove ks => forallb wfname ks
   | VSet vp => wf_vp vp && Nat.eqb (List.length vp) 16
   | _ => true
   end.
